@@ -224,6 +224,36 @@ fn cross_product(psl: &Psl, bodies: &[String], vocab: &[String], neighbours: usi
     })
 }
 
+/// Lookups through the tiny table compared with its reference; `before` are names looked up through
+/// the shipped provider immediately before each tiny lookup (and compared with the shipped list).
+fn second_table(psl: &Psl, tiny_ref: &Psl, names: &[String], before: &[String], st: &mut Stats) {
+    use crate::oracles::tinytable::TINY;
+    for n in names {
+        for d in before {
+            let (fs, _, _) = eval_name(psl, d, canonical(d));
+            st.findings_from(fs);
+        }
+        let case = json!({"tiny_table": {"name": n, "default_lookups_before": before}});
+        st.case(&(n, before), true, "second-table");
+        let r = par::catch(|| (TINY.public_suffix(n).to_string(), TINY.effective_tld_plus_one(n).map(|s| s.to_string()).map_err(|e| format!("{e:?}")), TINY.is_effective_tld(n)));
+        match r {
+            Err(p) => st.finding(Finding::new(format!("second-table/kind=panic/site={}", par::panic_site(&p)), format!("lookup of {n:?} through a second table panicked (after default-table lookups {before:?}): {p}"), case)),
+            Ok((ps, e1, _tld)) => {
+                if canonical(n) && Psl::well_formed(n) {
+                    let want_ps = tiny_ref.public_suffix(n).unwrap_or("");
+                    let want_e1 = tiny_ref.etld_plus_one(n);
+                    if ps != want_ps {
+                        st.finding(Finding::new("second-table/kind=public-suffix-differs", format!("ListProvider over the tiny table: public_suffix({n:?}) = {ps:?}, its rules give {want_ps:?} (default-table lookups before: {before:?})"), case.clone()));
+                    }
+                    if e1.as_deref().ok() != want_e1 {
+                        st.finding(Finding::new("second-table/kind=etld1-differs", format!("ListProvider over the tiny table: effective_tld_plus_one({n:?}) = {e1:?}, its rules give {want_e1:?} (default-table lookups before: {before:?})"), case));
+                    }
+                }
+            }
+        }
+    }
+}
+
 pub fn run(ctx: &Ctx) -> Result<Run, String> {
     let psl = Psl::load(DAT)?;
     // harness self-check: own punycode encoder == idna on every IDN rule
@@ -236,6 +266,19 @@ pub fn run(ctx: &Ctx) -> Result<Run, String> {
             return Err(format!("harness punycode encoder disagrees with idna on {body}: {mine} vs {theirs}"));
         }
         idn += 1;
+    }
+    // part 0: a second table in the same process.  The generic ListProvider<T> must answer for each T
+    // from T's own table: lookups through the hand-encoded tiny table (oracles/tinytable.rs), before
+    // the shipped provider has been touched by this process, compared with the reference matcher
+    // over the tiny rules; and pairs on one thread alternating between the two tables
+    let mut stats0 = Stats::new();
+    let tiny_ref = crate::oracles::tinytable::reference();
+    let tnames = crate::oracles::tinytable::names();
+    second_table(&psl, &tiny_ref, &tnames, &[], &mut stats0);
+    for a in &tnames {
+        for b in &tnames {
+            second_table(&psl, &tiny_ref, &[b.clone()], &[a.clone()], &mut stats0);
+        }
     }
     // part 1: rule-derived names
     let mut names: Vec<String> = psl.rules.iter().flat_map(|r| names_for_rule(r)).collect();
@@ -254,6 +297,11 @@ pub fn run(ctx: &Ctx) -> Result<Run, String> {
         st.findings_from(fs);
     });
     stats.merge(ust);
+    stats.merge(stats0);
+    // and once more after the bulk of the default-table lookups
+    let mut stats9 = Stats::new();
+    second_table(&psl, &tiny_ref, &tnames, &["www.example.co.uk".to_string()], &mut stats9);
+    stats.merge(stats9);
     stats.count("rule_derived_names", names.len() as u64);
     stats.count("rule_derived_names_with_unicode_left_labels", unicode.len() as u64);
     for n in names.iter().step_by(names.len() / 4 + 1) {
@@ -341,7 +389,7 @@ pub fn run(ctx: &Ctx) -> Result<Run, String> {
     let rules = psl.rules.len();
     let mut run = Run::from_stats(
         "exploration",
-        "every rule of public_suffix_list.dat (A-label form; wildcards instantiated with two labels and their base, exceptions without '!') as-is, with its leading label removed/replaced and with 1..3 labels prepended, compared on public_suffix / effective_tld_plus_one / is_effective_tld with a textbook PSL matcher over the .dat file; half of those names again with Unicode labels prepended (label counts must agree); every rule with each of the 64 most frequent labels of the list (thorough: every distinct label of the list) and the labels of its 4 (8) neighbours in table order in front of it; for every rule an ordered sequence of five lookups on one thread whose names share labels at different levels (reversed rule, rule, repeated top label); plus all strings over {c,k,o,m,u,w,.,A,é} up to the stated length and long/odd names incl. the three other IDNA label separators (U+3002, U+FF0E, U+FF61) in place of a dot of fixed and rule-derived names (structural checks always, equality for canonical lower-case ASCII names). Non-trivial = a canonical name whose prevailing rule is an explicit rule of the list",
+        "a second, hand-encoded table (com, corp, intra.corp, *.lab, !gate.lab, test) behind the same generic ListProvider, looked up before, between (every ordered pair default-name/tiny-name on one thread) and after the default-table lookups and compared with the reference matcher over its own rules; every rule of public_suffix_list.dat (A-label form; wildcards instantiated with two labels and their base, exceptions without '!') as-is, with its leading label removed/replaced and with 1..3 labels prepended, compared on public_suffix / effective_tld_plus_one / is_effective_tld with a textbook PSL matcher over the .dat file; half of those names again with Unicode labels prepended (label counts must agree); every rule with each of the 64 most frequent labels of the list (thorough: every distinct label of the list) and the labels of its 4 (8) neighbours in table order in front of it; for every rule an ordered sequence of five lookups on one thread whose names share labels at different levels (reversed rule, rule, repeated top label); plus all strings over {c,k,o,m,u,w,.,A,é} up to the stated length and long/odd names incl. the three other IDNA label separators (U+3002, U+FF0E, U+FF61) in place of a dot of fixed and rule-derived names (structural checks always, equality for canonical lower-case ASCII names). Non-trivial = a canonical name whose prevailing rule is an explicit rule of the list",
         true,
         stats,
     );
@@ -355,6 +403,20 @@ pub fn run(ctx: &Ctx) -> Result<Run, String> {
 
 pub fn replay(_ctx: &Ctx, case: &Value) -> Result<Vec<Finding>, String> {
     let psl = Psl::load(DAT)?;
+    if let Some(t) = case.get("tiny_table") {
+        let name = t["name"].as_str().unwrap_or("").to_string();
+        let before: Vec<String> = serde_json::from_value(t["default_lookups_before"].clone()).unwrap_or_default();
+        let tiny_ref = crate::oracles::tinytable::reference();
+        let r = std::thread::scope(|s| {
+            s.spawn(|| {
+                let mut st = Stats::new();
+                second_table(&psl, &tiny_ref, &[name.clone()], &before, &mut st);
+                st.findings.into_values().map(|x| x.0).collect::<Vec<_>>()
+            })
+            .join()
+        });
+        return r.map_err(|_| "replay thread panicked".to_string());
+    }
     let name = case["name"].as_str().ok_or("bad C10 case")?.to_string();
     let history: Vec<String> = case.get("history").and_then(|h| serde_json::from_value(h.clone()).ok()).unwrap_or_default();
     // on a fresh thread: first alone, then after the recorded earlier lookups
